@@ -45,6 +45,13 @@ def build(kind):
         return 1, cp, heat
     if kind == 'pfasst':
         return 3, dict(cp, predict_type='pfasst_burnin'), heat
+    if kind in ('rand1', 'rand2'):
+        # random initial guess, fixed number of iterations: the result depends on the numbers drawn -- every sweeper must draw them
+        # from a generator of its own, seeded by its own parameter
+        d = dict(test, sweeper_params=dict(num_nodes=3, quad_type='RADAU-RIGHT', QI='LU', initial_guess='random',
+                                           random_seed=1984 if kind == 'rand1' else 7),
+                 level_params=dict(dt=DT, restol=-1.0), step_params=dict(maxiter=2))
+        return 2, dict(cp, mssdc_jac=False), d
     if kind in ('adapt', 'adaptres'):
         # error- / residual-based step-size control with restarts on the van der Pol oscillator, 2 steps per block
         from pySDC.implementations.problem_classes.Van_der_Pol_implicit import vanderpol
@@ -114,6 +121,7 @@ def execute(hist):
     from pySDC.implementations.controller_classes.controller_nonMPI import controller_nonMPI
     ctrls = {}
     values = []  # actual result objects of earlier runs, in order
+    kept_stats = []  # the statistics dictionaries handed out, in order
     out = []
     for op in hist:
         if op['op'] == 'new':
@@ -131,11 +139,13 @@ def execute(hist):
         uend, stats = c.run(u0=u0, t0=op['a'] * DT, Tend=op['b'] * DT)
         values.append(uend)
         sh, ns = hash_stats(stats)
+        kept_stats.append(stats)
         out.append(dict(sol=hash_value(uend), stats=sh, nstats=ns, input_unchanged=hash_value(u0) == before))
     # results handed out earlier must still be what they were
     k = 0
     for op, o in zip(hist, out):
         if o is not None:
             o['still'] = hash_value(values[k]) == o['sol']
+            o['stats_still'] = hash_stats(kept_stats[k])[0] == o['stats']
             k += 1
     return out
